@@ -290,6 +290,35 @@ func ExecGenVerify(impl ExecImpl) func(c *Ctx, v2 bool) {
 				m[p] = string(b)
 				emit("byte-edit", m, gen.dirs)
 			}
+			// insertions, in particular of bytes a "tolerant" comparison might skip (CR before LF, spaces)
+			var nl []int
+			for k := 0; k < len(content); k++ {
+				if content[k] == '\n' {
+					nl = append(nl, k)
+				}
+			}
+			for _, ins := range []string{"\r", " ", "x", "\n", "\t"} {
+				pos := r.Intn(len(content) + 1)
+				if len(nl) > 0 && r.Chance(2, 3) {
+					pos = nl[r.Intn(len(nl))]
+				}
+				m := copyFiles()
+				m[p] = content[:pos] + ins + content[pos:]
+				emit("insert", m, gen.dirs)
+			}
+			// regenerate (not verify) over stale on-disk copies that are longer / shorter than the new output
+			for _, stale := range []string{content + "// stale tail that must not survive\n", content[:len(content)/3], "x"} {
+				cfg := cloneExecConfig(base)
+				cfg.Dirs = gen.dirs
+				for _, q := range SortedKeys(gen.files) {
+					c := gen.files[q]
+					if q == p {
+						c = stale
+					}
+					cfg.Files = append(cfg.Files, [2]string{q, c})
+				}
+				c.Case(cfg.Lines(), Meta{Nontrivial: true, Features: []string{"regenerate-over-stale"}})
+			}
 			m := copyFiles()
 			m[p] = content[:len(content)/2]
 			emit("truncate", m, gen.dirs)
